@@ -7,7 +7,7 @@ import ast
 from .. import norm
 from ..ctx import Ctx
 from ..facts import PathView, is_call_named
-from ..kinds import function_views, loop_iteration_views, names_interesting
+from ..kinds import expr_formula, function_views, loop_iteration_views, names_interesting, the_loop
 from ..paths import PathEnum, Step, first_line
 from ..repo import AnalysisError, call_name, calls_in
 from . import nodetables as N
@@ -372,12 +372,57 @@ def replay_budget(ctx: Ctx, rule: str) -> None:
                "jobs (or was retried twice in one) has no try left, is not executed and stays without an acceptable result")
 
 
+ACCEPTABLE = ("PASS", "WARN", "SKIP", "CANCEL")
+
+
+def status_rewrites(ctx: Ctx, rule: str) -> None:
+    """run_test_node edits the status of the entry of `job.result.tests` it has just read (the duration check turns a slow PASS into WARN); the
+    verdict (all_results_ok, hence the exit code of a run and of every manual step) is computed from those entries.  A rewrite into an
+    acceptable status is therefore only allowed where the status read is acceptable already - otherwise a failed test counts as a success."""
+    fref = "plugins/runner.py:TestRunner.run_test_node"
+    fn = ctx.repo.func(fref)
+    ctx.touch(fref)
+    entries = set()
+    for a in ast.walk(fn.node):
+        if isinstance(a, ast.Assign) and len(a.targets) == 1 and isinstance(a.targets[0], ast.Name) and "self.job.result.tests" in ast.unparse(a.value):
+            entries.add(a.targets[0].id)
+    if not entries:
+        raise AnalysisError(f"{fref}: the job result entry of the finished test is no longer read into a local")
+    loop = the_loop(ctx, fref, ast.For, lambda l: any(isinstance(x, ast.Name) and x.id in entries for t in ast.walk(l) if isinstance(t, ast.Assign) for x in t.targets),
+                    "loop polling the job results for the finished test")
+    views = loop_iteration_views(ctx, fref, loop, None)
+    n_sites, bad = 0, None
+
+    def is_rewrite(s):
+        return isinstance(s, ast.Assign) and len(s.targets) == 1 and isinstance(s.targets[0], ast.Subscript) and isinstance(s.targets[0].value, ast.Name) \
+            and s.targets[0].value.id in entries and ast.unparse(s.targets[0].slice) == "'status'"
+
+    for v in views:
+        for i, s in v.stmts(is_rewrite):
+            n_sites += 1
+            e = s.targets[0].value.id
+            if not (isinstance(s.value, ast.Constant) and isinstance(s.value.value, str)):
+                bad = bad or (s, "a computed status is written into the job result entry")
+                continue
+            if s.value.value not in ACCEPTABLE:
+                continue
+            need = norm.disj([expr_formula(v, i, f"{e}['status'] == '{a}'") for a in ACCEPTABLE])
+            if not norm.implies(v.premise(i, 0), need):
+                bad = bad or (s, f"`{ast.unparse(s)}` is reachable while the status read from the job results may be FAIL / ERROR / INTERRUPTED "
+                                 f"(not guarded by {e}['status'] being acceptable)")
+    ok = bad is None
+    ctx.record(rule, "GUARD", fref, "a job result entry is rewritten to an acceptable status (slow run -> WARN) only where the status read is acceptable already",
+               ok, {"rewrite_sites_on_paths": n_sites, "entries": sorted(entries)},
+               "" if ok else f"a failed test is turned into an acceptable result, the verdict and the exit code then report success: {bad[1]}")
+
+
 def run(ctx: Ctx) -> None:
     ctx.call(N.should_rerun_table, "1")
     ctx.call(retry_ids, "2")
     ctx.call(N.run_decision_table, "9r")
     ctx.call(lookup, "3")
     ctx.call(verdict, "4")
+    ctx.call(status_rewrites, "4z")
     ctx.call(replay_loading, "5")
     ctx.call(T.t_o1, "5t/T.O1")
     ctx.call(bounded_wait, "6")
@@ -396,6 +441,7 @@ def run(ctx: Ctx) -> None:
 NODE = "cartgraph/node.py"
 G = "cartgraph/graph.py"
 MUTANTS = [
+    ("slow-failure-becomes-warn", RUNNER, "                    if (\n                        test_result[\"status\"] == \"PASS\"\n                        and float(duration) > 1.25 * max_allowed\n                    ):", "                    if float(duration) > 1.25 * max_allowed:", "4z"),
     ("inflight-held-against-rerun-status", "cartgraph/node.py", "rerun_statuses_violated = {*test_statuses} - {*rerun_status} - {\"unknown\"}", "rerun_statuses_violated = {*test_statuses} - {*rerun_status}", "1i"),
     ("replay-existing-file-rejected", "plugins/runner.py", "            if not os.path.isfile(replay_results):", "            if os.path.isfile(replay_results):", "5"),
     ("replay-named-jobs-skipped", "plugins/runner.py", "            if not replay_job:\n                continue", "            if replay_job:\n                continue", "5"),
